@@ -48,6 +48,13 @@ pub fn grid(persist_dir: &str) -> Vec<(&'static str, String, Want)> {
     // status_interval: the statement's grid is "within 1..=65535"; outside is left open
     add("status_interval", &[("1", Accept), ("10", Accept), ("600", Accept), ("65535", Accept), ("255", Accept), ("256", Accept), ("300", Accept), ("0", Either), ("65536", Either), ("70000", Either), ("-1", Either), ("abc", Refuse)]);
     add("health_check_port", &[("1", Either), ("8000", Accept), ("65535", Accept), ("255", Either), ("256", Either), ("300", Either), ("1024", Accept), ("65536", Refuse), ("70000", Refuse), ("-1", Refuse), ("-200", Refuse), ("0", Either), ("abc", Refuse)]);
+    // integer settings written as YAML reals with a fractional part (or not-a-number): no integer was
+    // written, so whatever integer the server would run with is "a different value"
+    add("port", &[("8686.5", Refuse), ("65535.9", Refuse)]);
+    add("batch_size", &[("64.9", Refuse), ("1.5", Refuse), ("0.5", Refuse)]);
+    add("fault_percentage", &[("50.5", Refuse), ("-0.5", Refuse), (".nan", Refuse), ("25.25", Refuse)]);
+    add("num_workers", &[("1.5", Refuse), ("2.75", Refuse)]);
+    add("health_check_port", &[("8000.5", Refuse)]);
     let s62 = &BASE_SEED_HEX[..62];
     let s63 = &BASE_SEED_HEX[..63];
     let s66 = format!("{}ab", BASE_SEED_HEX);
